@@ -2,7 +2,8 @@
 
 ``cpy_slice`` is CPython's ``PySlice_AdjustIndices`` + slice length, written
 from Objects/sliceobject.c; it is validated against ``slice.indices`` /
-``len(range(...))`` on a grid by the spec self-check.
+``len(range(...))`` and NumPy slicing on a grid by contracts/specgrid.py
+(an extra of C02, C03, C11, C01).
 
 The two repository functions are verified against their bodies here and are
 used *modularly* (contract instead of body) by the indexing contracts.
